@@ -99,6 +99,9 @@ def catalogRoomOne (s : Pkg) (catalog key : List Char) (name : List Char) (n : N
 
 /-- the three of them, in the order of the code -/
 def catalogRoom (s : Pkg) (name : List Char) (cols : List Column) : Res Unit :=
+  -- a database written by something else may lack `_Validation`, where the rows for the new
+  -- columns have to go: refused before anything is written (fix D24)
+  if name != Gen.nameValidation.toList && (s.findTable Gen.nameValidation.toList).isNone then .err .notFound else
   match catalogRoomOne s Gen.nameColumns.toList "Table".toList name cols.length with
   | .ok () =>
     match catalogRoomOne s Gen.nameTables.toList "Name".toList name 1 with
@@ -126,6 +129,12 @@ def createTable (s : Pkg) (name : List Char) (cols : List Column) : Pkg × Res U
 
 def eqStr (col : String) (v : List Char) : Option Ast := some (.bin .eq (.col col.toList) (.lit (.str v)))
 
+/-- the `_Validation` rows of a dropped table are deleted when there is a `_Validation` table
+(a database written by something else may lack it: fix D24) -/
+def deleteValidation (s : Pkg) (name : List Char) : Pkg × Res Unit :=
+  if (s.findTable Gen.nameValidation.toList).isSome then deleteRows s Gen.nameValidation.toList (eqStr "Table" name)
+  else (s, .ok ())
+
 /-- `drop_table` -/
 def dropTable (s : Pkg) (name : List Char) : Pkg × Res Unit :=
   if Catalog.isReserved name then (s, .err .invalidInput) else
@@ -144,7 +153,7 @@ def dropTable (s : Pkg) (name : List Char) : Pkg × Res Unit :=
       else (s, .ok ())
     match step1 with
     | (s1, .ok ()) =>
-      match deleteRows s1 Gen.nameValidation.toList (eqStr "Table" name) with
+      match deleteValidation s1 name with
       | (s2, .ok ()) =>
         match deleteRows s2 Gen.nameColumns.toList (eqStr "Table" name) with
         | (s3, .ok ()) =>
